@@ -29,6 +29,8 @@ struct MockTask {
     std::set<long> preds;
     bool done = false;
     int worker = 0;
+    long npending = 0;                         // predecessors not yet executed
+    std::vector<long> succs;                   // tasks waiting for this one
     long parent = -1;                          // seq of the task that submitted it, -1 = the master
     std::string name;
 };
@@ -51,10 +53,11 @@ struct MockRuntime {
     struct AddrState { std::vector<long> writers; bool commute_group = false; std::vector<long> before; std::vector<long> readers; };
     std::map<std::pair<long, void*>, AddrState> addr;   // keyed by (parent task, address)
     std::map<long, size_t> pos;                          // seq -> index in tasks
+    std::set<long> ready;                                // pending tasks whose predecessors have all run
     unsigned long next(){ rng ^= rng << 13; rng ^= rng >> 7; rng ^= rng << 17; return rng; }
     void reset(Policy p, int T, unsigned long seed){
         policy = p; nthreads = T; rng = seed * 2654435761UL + 88172645463325252UL;
-        tasks.clear(); history.clear(); exec_order.clear(); addr.clear(); pos.clear(); seq = 0; current_worker = 0; in_task = false; current_task = -1; draining = false;
+        tasks.clear(); history.clear(); exec_order.clear(); addr.clear(); pos.clear(); ready.clear(); seq = 0; current_worker = 0; in_task = false; current_task = -1; draining = false;
     }
     void run_task(MockTask& t){
         const int saved = current_worker; const bool savedin = in_task; const long savedtask = current_task;
@@ -66,6 +69,10 @@ struct MockRuntime {
         if(on_task_start && savedin) on_task_start(savedtask);
         t.done = true;
         exec_order.push_back(t.seq);
+        for(long sc : t.succs){
+            auto it = pos.find(sc);
+            if(it != pos.end() && !tasks[it->second].done && --tasks[it->second].npending == 0) ready.insert(sc);
+        }
     }
     // registers the dependence edges of t (t.deps filled) and queues it
     void submit(MockTask t){
@@ -102,11 +109,16 @@ struct MockRuntime {
         }
         t.preds.erase(t.seq);
         if(in_task && on_spawn) on_spawn(t.seq);
+        for(long p : t.preds){
+            auto it = pos.find(p);
+            if(it != pos.end() && !tasks[it->second].done){ tasks[it->second].succs.push_back(t.seq); t.npending += 1; }
+        }
+        if(t.npending == 0) ready.insert(t.seq);
         pos[t.seq] = tasks.size();
         tasks.push_back(std::move(t));
         if(policy == IMMEDIATE){
             if(!in_task) drain();
-            else if(is_ready(tasks.back())) run_task(tasks.back());   // nested creation: run it at once when its predecessors are done
+            else if(tasks.back().npending == 0){ ready.erase(tasks.back().seq); run_task(tasks.back()); }   // nested creation: run it at once when its predecessors are done
         }
     }
     bool is_ready(const MockTask& t){
@@ -117,28 +129,24 @@ struct MockRuntime {
         // execute all pending tasks in a policy-chosen linear extension of the dependence order
         if(in_task || draining) return;      // only the master's barrier / wait-for-all drains
         draining = true;
-        while(true){
-            std::vector<size_t> ready;
-            for(size_t k = 0 ; k < tasks.size() ; ++k){
-                if(!tasks[k].done && is_ready(tasks[k])) ready.push_back(k);
-            }
-            if(ready.empty()) break;
-            size_t pick = ready[0];
+        while(!ready.empty()){
+            long pick = *ready.begin();
             switch(policy){
-            case LIFO: pick = ready.back(); break;
-            case RANDOM: pick = ready[next() % ready.size()]; break;
-            case PRIO_INV: for(size_t r : ready) if(tasks[r].priority < tasks[pick].priority) pick = r; break;
-            case PRIO: for(size_t r : ready) if(tasks[r].priority > tasks[pick].priority) pick = r; break;
+            case LIFO: pick = *ready.rbegin(); break;
+            case RANDOM: { auto it = ready.begin(); std::advance(it, long(next() % ready.size())); pick = *it; break; }
+            case PRIO_INV: for(long r : ready) if(tasks[pos[r]].priority < tasks[pos[pick]].priority) pick = r; break;
+            case PRIO: for(long r : ready) if(tasks[pos[r]].priority > tasks[pos[pick]].priority) pick = r; break;
             default: break;
             }
-            run_task(tasks[pick]);
+            ready.erase(pick);
+            run_task(tasks[pos[pick]]);
         }
         for(auto& t : tasks){
             if(t.cleanup) t.cleanup();
             t.run = nullptr; t.cleanup = nullptr;
             history.push_back(t);
         }
-        tasks.clear(); pos.clear();
+        tasks.clear(); pos.clear(); ready.clear();
         draining = false;
     }
 };
